@@ -153,7 +153,8 @@ func longSymbolLists() [][]int {
 	}
 	// many DISTINCT values (a helper may switch strategy with the number of distinct values it has seen, not
 	// with the length): k distinct symbols followed by all of them again, by the last one again, reversed
-	for _, k := range []int{8, 9, 10, 16, 17, 33} {
+	// (the ladder continues in distinctLadder up to 4097 distinct values for the duplicate-removing helpers)
+	for _, k := range []int{8, 9, 10, 16, 17, 33, 64, 65, 66} {
 		var asc, twice, lastAgain, mirror []int
 		for i := 0; i < k; i++ {
 			asc = append(asc, i)
@@ -834,7 +835,8 @@ func mapsAndNumbers(r *lib.Report, evals, inputs *int64) {
 		}
 	}
 	// (only spans whose last step stays inside the type: what Range does when lower+k*hop overflows T is not defined)
-	for _, c := range [][3]int{{100, 127, 9}, {-128, -120, 3}, {0, 100, 25}, {5, 5, 1}, {-3, 3, 2}} {
+	// The spans wider than the type's maximum (-100..100 in int8) are legitimate arguments: every element is in the type.
+	for _, c := range [][3]int{{100, 127, 9}, {-128, -120, 3}, {0, 100, 25}, {5, 5, 1}, {-3, 3, 2}, {-100, 100, 1}, {-100, 100, 7}, {-128, 127, 1}, {-128, 77, 50}, {-65, 64, 1}, {-1, 127, 1}} {
 		*evals += 2
 		*inputs++
 		lo, hi, hop := c[0], c[1], c[2]
@@ -859,6 +861,156 @@ func mapsAndNumbers(r *lib.Report, evals, inputs *int64) {
 		}
 		if p != "" || !seqEq(g8, w8) || (lo >= 0 && !seqEq(gu, wu)) {
 			bad("Range", "wrong-result|narrow-int", "Range[int8/uint8](%d, %d, %d) = %v / %v %s, want %v / %v", lo, hi, hop, g8, gu, p, w8, wu)
+		}
+	}
+}
+
+// wideRanges: Range on int16 / int32 / int64 with spans that do not fit the type (higher-lower overflows T although every
+// element is representable) — a size computation made in T goes wrong exactly there.
+func wideRanges(r *lib.Report, evals, inputs *int64) {
+	bad := func(format string, a ...interface{}) {
+		r.Violation("C03|Range|wide-span", fmt.Sprintf(format, a...), nil)
+	}
+	check16 := func(lo, hi, hop int64) {
+		*evals++
+		*inputs++
+		var g []int16
+		p := lib.Catch(func() { g = fpgo.Range(int16(lo), int16(hi), int16(hop)) })
+		var w []int16
+		for v := lo; v < hi; v += hop {
+			w = append(w, int16(v))
+		}
+		if p != "" || !seqEq(g, w) {
+			bad("Range[int16](%d, %d, %d): %s got %d elements, want %d", lo, hi, hop, p, len(g), len(w))
+		}
+	}
+	check32 := func(lo, hi, hop int64) {
+		*evals++
+		*inputs++
+		var g []int32
+		p := lib.Catch(func() { g = fpgo.Range(int32(lo), int32(hi), int32(hop)) })
+		var w []int32
+		for v := lo; v < hi; v += hop {
+			w = append(w, int32(v))
+		}
+		if p != "" || !seqEq(g, w) {
+			bad("Range[int32](%d, %d, %d): %s got %d elements, want %d", lo, hi, hop, p, len(g), len(w))
+		}
+	}
+	check64 := func(lo, hi, hop int64, n int) {
+		*evals++
+		*inputs++
+		var g []int64
+		p := lib.Catch(func() { g = fpgo.Range(lo, hi, hop) })
+		w := make([]int64, 0, n)
+		for k, v := 0, lo; k < n; k, v = k+1, v+hop {
+			w = append(w, v)
+		}
+		if p != "" || !seqEq(g, w) {
+			bad("Range[int64](%d, %d, %d): %s got %d elements, want %d", lo, hi, hop, p, len(g), len(w))
+		}
+	}
+	for _, hop := range []int64{1000, 4096, 9973, 20000, 32767} {
+		if hop <= 20000 {
+			check16(-20000, 20000, hop)
+		}
+		check16(-32768, 32767-hop+1, hop)
+		check16(-1, 32767-hop+1, hop)
+	}
+	for _, hop := range []int64{1 << 20, 1<<24 + 1, 1 << 30, 1<<31 - 1} {
+		check32(-2000000000, 2000000000-hop+1, hop)
+		check32(-1<<31, 1<<31-hop, hop)
+	}
+	// int64: lower + k*hop for k < n stays below higher and inside the type (n computed by hand)
+	check64(-6e18, 6e18, 1e18, 12)
+	check64(-9e18, 9e18, 3e18, 6)
+	check64(-1<<63, 1<<62, 1<<62, 3)
+	check64(-5e18, 5e18, 4e18, 3)
+}
+
+// distinctLadder: the duplicate-removing helpers on lists with MANY distinct values (2^k-1, 2^k, 2^k+1 up to 4097), where
+// a helper that switches from scanning to a set at some count would go wrong. Patterns: all values twice; all values, then
+// each value again in reverse; all values with the value at every "boundary" position repeated at the very end.
+func distinctLadder(r *lib.Report, evals, inputs *int64) {
+	bad := func(fn, format string, a ...interface{}) {
+		r.Violation("C03|"+fn+"|many-distinct", fmt.Sprintf(format, a...), nil)
+	}
+	var ks []int
+	for p := 64; p <= 4096; p *= 2 {
+		ks = append(ks, p-1, p, p+1, p+2, p+p/2)
+	}
+	for _, k := range ks {
+		asc := make([]int, k)
+		for i := range asc {
+			asc[i] = i * 3
+		}
+		var pats [][]int
+		pats = append(pats, append(append([]int{}, asc...), asc...))
+		m := append([]int{}, asc...)
+		for i := k - 1; i >= 0; i-- {
+			m = append(m, asc[i])
+		}
+		pats = append(pats, m)
+		// every value v_j (j around each power of two) once more, after all k values have been seen
+		e := append([]int{}, asc...)
+		for p := 8; p <= k; p *= 2 {
+			for _, j := range []int{p - 2, p - 1, p, p + 1} {
+				if j >= 0 && j < k {
+					e = append(e, asc[j])
+				}
+			}
+		}
+		pats = append(pats, e)
+		for pi, l := range pats {
+			*inputs++
+			*evals += 6
+			d := fmt.Sprintf("pattern %d over %d distinct values (%d items)", pi, k, len(l))
+			strs := make([]string, len(l))
+			ifs := make([]interface{}, len(l))
+			for i, v := range l {
+				strs[i] = fmt.Sprint("s", v)
+				ifs[i] = v
+			}
+			var g, gr, gd []int
+			var gs []string
+			var gi []interface{}
+			var isd, isd2 bool
+			if p := lib.Catch(func() {
+				g, gr, gs, gi = fpgo.Distinct(l...), fpgo.DistinctRandom(l...), fpgo.Distinct(strs...), fpgo.DistinctForInterface(ifs...)
+				isd, isd2 = fpgo.IsDistinct(l...), fpgo.IsDistinct(asc...)
+				gd = fpgo.Dedupe(l...)
+			}); p != "" {
+				bad("Distinct", "%s: panic: %s", d, p)
+				continue
+			}
+			if !seqEq(g, asc) {
+				bad("Distinct", "Distinct(%s) has %d items, want the %d distinct values in first-occurrence order", d, len(g), k)
+			}
+			if !sameMultiset(gr, asc) {
+				bad("DistinctRandom", "DistinctRandom(%s) has %d items, want the %d distinct values", d, len(gr), k)
+			}
+			okS, okI := len(gs) == k, len(gi) == k
+			for i := 0; i < k && okS && okI; i++ {
+				okS, okI = gs[i] == fmt.Sprint("s", asc[i]), gi[i] == interface{}(asc[i])
+			}
+			if !okS {
+				bad("Distinct", "Distinct[string](%s) has %d items, want the %d distinct values in first-occurrence order", d, len(gs), k)
+			}
+			if !okI {
+				bad("DistinctForInterface", "DistinctForInterface(%s) has %d items, want the %d distinct values in first-occurrence order", d, len(gi), k)
+			}
+			if isd || !isd2 {
+				bad("IsDistinct", "IsDistinct(%s) = %v, IsDistinct(the %d distinct values) = %v", d, isd, k, isd2)
+			}
+			var wd []int
+			for i, v := range l {
+				if i == 0 || l[i-1] != v {
+					wd = append(wd, v)
+				}
+			}
+			if !seqEq(gd, wd) {
+				bad("Dedupe", "Dedupe(%s) has %d items, want %d", d, len(gd), len(wd))
+			}
 		}
 	}
 }
@@ -960,6 +1112,8 @@ func main() {
 			(&suite[lib.Tagged]{r: r, tname: "struct-with-pointer", sym: func(i int) lib.Tagged { return []lib.Tagged{{N: 1, P: lib.P1}, {N: 1, P: lib.P2}, {}}[i] }, sentinel: lib.Tagged{N: 99}, evals: &evals, inputs: ip, maxLen: maxLen - 1}).run()
 		}
 		mapsAndNumbers(r, &evals, ip)
+		wideRanges(r, &evals, ip)
+		distinctLadder(r, &evals, ip)
 	}
 	r.Cov["states"] = inputs
 	r.Cov["transitions"] = evals
